@@ -182,8 +182,15 @@ def gen_history(rng, length, names=("c", "s"), mode="joint", custom=False):
         elif r < 0.92:
             if mode == "joint":
                 continue
-            # crafted single message (candidate id classes) or junk
-            if rng.random() < 0.5:
+            # crafted single message (candidate id classes) or junk; or a BATCH of two or three crafted messages in one delivery (a closing
+            # message — unbind, notice of disconnection — may then stand first or in the middle)
+            if rng.random() < 0.22:
+                who = cn if rng.random() < 0.5 else sn
+                parts_ = []
+                for _b in range(rng.choice([2, 2, 3])):
+                    parts_.append(crafted_for_client(rng, c, retired[cn])[0] if who == cn else crafted_for_server(rng, custom)[0])
+                do({"op": "call", "name": who, "call": {"k": "receive", "chunk": b"".join(parts_).hex()}})
+            elif rng.random() < 0.5:
                 data, _ = crafted_for_client(rng, c, retired[cn])
                 do({"op": "call", "name": cn, "call": {"k": "receive", "chunk": data.hex()}})
             elif rng.random() < 0.6:
@@ -286,6 +293,8 @@ def monitor(reqs, replies, roles):
     tail = collections.defaultdict(bytes)    # delivered bytes not yet forming a complete unit (independent framing)
     delivered_reqs = collections.defaultdict(collections.Counter)   # request ids per server, read from the delivered bytes themselves
     answered = collections.defaultdict(collections.Counter)         # final responses accepted per server and id
+    handed = collections.defaultdict(list)                          # ids returned by a client's accepted request calls, in call order
+    wire_flagged = collections.defaultdict(bool)
 
     def viol(prop, key, what, i):
         v[prop].append({"key": key, "what": what, "step": i, "history": reqs[: i + 1]})
@@ -329,6 +338,22 @@ def monitor(reqs, replies, roles):
                 viol("C12", None, f"cannot build the reference encoding: {type(e).__name__}", i)
         if not sent[nm].startswith(drained[nm]):
             viol("C12", None, "everything drained so far is not a prefix of the encodings of the accepted sends in call order", i)
+        # ---------------- C09: the ids ON THE WIRE (read from the drained bytes by the harness's own TLV reader) are the ids handed out, in order
+        if role == "client" and k in CLIENT_REQ and ok == "sent" and isinstance(out.get("id"), int):
+            handed[nm].append(out["id"])
+        if role == "client" and k == "drain" and ok == "bytes" and out["b"]:
+            try:
+                import ber as _bw
+                _, pos_w, _ = _bw.count_frames(drained[nm])
+                wire = [int.from_bytes(u.content[2: 2 + u.content[1]], "big", signed=True) for u in _bw.parse(drained[nm][:pos_w], deep=False)
+                        if len(u.content) > 2 and u.content[0] == 2 and u.content[1] < 128]
+                wire = [w for w in wire if w != 0 or 0 in handed[nm]]      # (the unbind request carries id 0 and is not a handed-out id)
+                if wire != handed[nm][: len(wire)] and not wire_flagged[nm]:
+                    wire_flagged[nm] = True
+                    viol("C09", None, f"the message ids in the bytes the client emitted ({wire[:12]}…) are not the ids handed out by its request calls, in "
+                         f"order ({handed[nm][:12]}…): an id was reused, skipped, or emitted by a call that returned none", i)
+            except Exception:  # noqa: BLE001
+                pass
 
         # ---------------- C10: refused calls have no wire effect; servers answer only open requests
         if is_send and not accepted and ok != "NotApplicable":
@@ -709,10 +734,26 @@ def scripted_histories():
 
     for issued, octets in ((129, b"\x81"), (255, b"\xff"), (130, b"\xff\x7f")):
         hist(*([("c", ext_c)] * issued + [("c", rx(raw_resp(octets))), ("c", ext_c)]))
+        # many operations in progress at once, the bytes taken by the transport now and then: every id on the wire is the id its call returned
+        hist(*([("c", ext_c)] * (issued // 2) + [("c", {"k": "drain", "amount": 100})] + [("c", srch_c)] * (issued // 2) + [("c", {"k": "drain", "amount": None}),
+               ("c", ext_c), ("c", ext_c), ("c", {"k": "drain", "amount": None})]))
     # the notice of disconnection in Active Directory's framing, carrying the id of an operation in progress / id 0 / an unknown id
     for first in (ext_c, srch_c, bind_c):
         for nid in (1, 0, 5):
             hist(("c", first), ("c", rx(ad_notice(nid))), ("c", ext_c), ("c", rx(ext2)))
+    # a closing message (unbind / notice of disconnection) that is NOT the last message of its delivery still closes the session
+    unbind0 = pk({"id": 0, "op": {"k": "unbind"}, "controls": []})
+    unbind3 = pk({"id": 3, "op": {"k": "unbind"}, "controls": []})
+    nod = lambda i: pk({"id": i, "op": {"k": "extResp", "res": res(52), "name": t(NOTICE), "value": None}, "controls": []})
+    for ub in (unbind0, unbind3):
+        hist(("s", rx(ub + ext_req(1))), ("s", rx(ext_req(2))), ("s", ext_resp(1)), ("s", {"k": "drain", "amount": None}))
+        hist(("s", rx(ext_req(1) + ub + ext_req(2))), ("s", ext_resp(1)), ("s", rx(ext_req(3))))
+        hist(("s", rx(bind_req(1, sasl))), ("s", bind_resp(1, 14)), ("s", rx(ub + bind_req(2, sasl))), ("s", bind_resp(2, 0)))
+        hist(("s", rx(ub[:3])), ("s", rx(ub[3:] + ext_req(1) + ext_req(2)[:4])), ("s", rx(ext_req(2)[4:])), ("s", ext_resp(1)))
+    for nid in (1, 2, 0):
+        hist(("c", ext_c), ("c", srch_c), ("c", rx(nod(nid) + done2)), ("c", ext_c), ("c", rx(ext2)), ("c", {"k": "drain", "amount": None}))
+        hist(("c", ext_c), ("c", srch_c), ("c", rx(ext1 + nod(nid) + done2)), ("c", ext_c))
+        hist(("c", ext_c), ("c", srch_c), ("c", rx(ad_notice(nid) + done2)), ("c", ext_c))
     # a final bind response whose result code is not 14 but turns into 14 under truncation: the bind is over, on both sides
     for code in NEAR14:
         hist(("s", rx(bind_req(1, sasl))), ("s", bind_resp(1, code)), ("s", rx(ext_req(2))), ("s", ext_resp(2)), ("s", bind_resp(1, 0)))
